@@ -366,11 +366,23 @@ func genC12Edit(cfg Config, ws *WorldSet, wi, t int) C12Case {
 	iv := tplInv(cfg, world, wi, t, "edit")
 	setup := "{W}/" + world.Setup
 	nv := len(world.Variants)
+	mk := func() Step { i := iv; return Step{Op: "run", Inv: &i, Bin: "plain"} }
+	if t >= 2*nv {
+		// the setup file is saved half-edited (a syntax error), a run fails on it, the
+		// edit is completed or taken back, the next run has to be as on an empty path
+		broken := world.Files[world.Setup] + "\nfunc halfWritten( {\n"
+		steps := []Step{}
+		if t%2 == 1 {
+			steps = append(steps, mk())
+		}
+		steps = append(steps, Step{Op: "edit", Path: setup, Data: []byte(broken), Note: "half-edited (syntax error)"}, mk(),
+			Step{Op: "edit", Path: setup, Data: []byte(world.Files[world.Setup]), Note: "variant 0"}, mk())
+		return C12Case{World: world, Steps: steps, Mode: "edit"}
+	}
 	v := t % nv
 	if v == 3 && hasSiblingGoFiles(world) { // index 3 = variant 4 (package renamed)
 		v = 0
 	}
-	mk := func() Step { i := iv; return Step{Op: "run", Inv: &i, Bin: "plain"} }
 	steps := []Step{mk(), {Op: "edit", Path: setup, Data: []byte(world.Variants[v]), Note: fmt.Sprintf("variant %d", v+1)}, mk()}
 	if (t/nv)%2 == 1 {
 		steps = append(steps, Step{Op: "edit", Path: setup, Data: []byte(world.Files[world.Setup]), Note: "variant 0"}, mk())
@@ -814,6 +826,19 @@ func runC12(cfg Config, args []string) int {
 			}
 		}
 	}
+	// truncation at every multiple of the page size, for every accepted world whose
+	// result is longer than a page (what a crash leaves when whole pages had reached
+	// the disk; also where chunked readers and writers have their boundaries)
+	for wi := range worlds {
+		if !canon[wi].Accepted {
+			continue
+		}
+		L, n := len(canon[wi].Out), 0
+		for k := 4096; k < L && (cfg.Tier != "quick" || n < 24); k += 4096 {
+			enum = append(enum, enumItem{wi, k, false, false})
+			n++
+		}
+	}
 	// crash-recovery templates for the first accepted worlds that have variants
 	type recItem struct{ wi, t int }
 	var rec []recItem
@@ -836,7 +861,7 @@ func runC12(cfg Config, args []string) int {
 			continue
 		}
 		cnt++
-		for t := 0; t < 2*len(worlds[wi].Variants); t++ {
+		for t := 0; t < 2*len(worlds[wi].Variants)+2; t++ {
 			edits = append(edits, recItem{wi, t})
 		}
 	}
